@@ -21,6 +21,15 @@ Clauses:
   reuse    bytes handed to a reader belong to the connection the socket object is on now,
            never to a stream of an earlier connection of the reader or writer object
 
+Observation order. All completions go through one FIFO of posted handlers, so the order of
+read completions (`H`) of a socket is the order in which the bytes were copied, with one
+exception that the monitor accounts for: a non-blocking read executed by a handler that was
+queued earlier can return the bytes *behind* those of an asynchronous read whose completion is
+posted but not yet invoked; it is judged after that completion. A write completion may
+likewise be seen after a read of its bytes only while the write is pending; such reads wait
+for it. Accepting into a socket object (`accept`, `accept_ep`) closes the connection the object
+is on at the call.
+
 check(impl_lines, scenario_text) -> [(clause, detail)]            never raises
 check_stats(impl_lines, scenario_text) -> ([(clause, detail)], stats)
 """
